@@ -20,8 +20,23 @@ Definition to_mref (o : oref) : mref :=
   | OScalar v => MVal v | OSeq vs => MSeq vs | OSet vs => MSet vs | OPred i => mfun i | OType t => MType t
   end.
 
+(* Inside the property's quantifier the dumped source satisfies the premises of C02_l_select_refines
+   (well-formed, duplicate-free row ids, cells of the column's type, reference floats binary64): the theorem
+   then says that the model's answer IS the L0 selection, so model = implementation is the same fact as
+   oracle = true seen from the other side.  A source that lost a premise (e.g. a row id handed out twice by a
+   resize) is reported here even if no comparison happens to touch the damaged rows. *)
+Definition premises_ok (rid : list N) (cols : cols_t) (c : string) (op : cmpop) (o : oref) : bool :=
+  let t := mk_table rid cols in
+  match to_ref o, slot_of t c with
+  | Some r, Some s =>
+      negb (in_domain (skind s) op r (scells s))
+      || (wf_table t && nodup_N rid && forallb (cell_of (skind s)) (scells s) && ref_wf r)
+  | _, _ => true
+  end.
+
 Definition model1 (rid : list N) (cols : cols_t) (c : string) (o : oref) (x : cmpop * obs) : bool :=
   let '(op, ob) := x in
+  premises_ok rid cols c op o &&
   match l_select (mk_table rid cols) c op (to_mref o), ob with
   | Ok (Some t'), ObsOk rid' cols' => list_eqb N.eqb (ids t') rid' && cols_same (view t') cols'
   | Raise e, ObsRaise e' => exn_eqb e e'
